@@ -119,6 +119,21 @@ func (s *Shard) Init() error {
 
 	s.gc.init()
 
+	// All components have been opened for writing so far, whatever mode the
+	// shard is configured with (and reports): bring them to that mode.
+	if m := s.GetMode(); m != mode.ReadWrite {
+		s.m.Lock()
+		s.info.Mode = mode.ReadWrite
+		err := s.setMode(m)
+		if err != nil {
+			s.info.Mode = m
+		}
+		s.m.Unlock()
+		if err != nil {
+			return fmt.Errorf("could not switch components to the configured mode %s: %w", m, err)
+		}
+	}
+
 	return nil
 }
 
